@@ -595,8 +595,7 @@ func main() {
 			}
 		}
 	}
-	// scramble the seed: hlib.NewRng(seed+1) is hlib.NewRng(seed) shifted by one output
-	rng := hlib.FromState(hlib.NewRng(*seed*0xD1342543DE82EF95 + 0x632BE59BD9B4E019).Next())
+	rng := hlib.NewRng(*seed)
 	seen := map[string]bool{}
 	for i := 0; i < *cases; i++ {
 		cr := rng.Fork()
